@@ -66,7 +66,8 @@ def check(cfg, ops, seed, counters=None):
     sess.close()
     for g in (1, 2):
         env.CLOCK.advance(86400 * 3 + 7)
-        s = driver.Session(cfg, seed)
+        # sometimes in an object that held a different image (with every optional structure) before
+        s = driver.Session(cfg, seed, reuse=driver.used_session(seed, how=(seed // 4) % 2) if (seed + g) % 4 == 0 else None)
         try:
             s.open_bytes(gens[-1])
         except Exception as e:
